@@ -33,22 +33,26 @@ Definition dN (rows : list drow) (a b : param) : D :=
         is round-off of the observations (noise-free data) *)
 Definition dY2 (rows : list drow) (p : param -> D) : D :=
   dsum (map (fun r => let m := dadd (dabs (ddot (kform r) p)) (dabs (kobs r)) in dmul (kwgt r) (dmul m m)) rows).
+(* row a of the normal matrix, labelled by column *)
+Definition dNrow (rows : list drow) (cols : list param) (a : param) : list (param * D) := map (fun l => (l, dN rows a l)) cols.
+Definition dNC (Nrow : list (param * D)) (cov : param -> param -> D) (b : param) : D := dsum (map (fun lN => dmul (snd lN) (cov (fst lN) b)) Nrow).
+Definition dNCabs (Nrow : list (param * D)) (cov : param -> param -> D) (b : param) : D := dsum (map (fun lN => dabs (dmul (snd lN) (cov (fst lN) b))) Nrow).
+Definition ds2i (rows : list drow) (cols : list param) (cov : param -> param -> D) : D :=
+  match cols with a :: _ => dNC (dNrow rows cols a) cov a | [] => dzero end.
 Definition cov_ok (e efloor : Z) (rows : list drow) (p : param -> D) (cols : list param) (cov : param -> param -> D) : bool :=
   let dof := (Z.of_nat (length rows) - Z.of_nat (length cols), 0) : D in
   let ssr := dSSR rows p in
-  let Nm := map (fun a => map (fun b => dN rows a b) cols) cols in
-  let prod := fun (Nrow : list D) (b : param) => dsum (map (fun lN => dmul (snd lN) (cov (fst lN) b)) (combine cols Nrow)) in
-  let mag := fun (Nrow : list D) (b : param) => dsum (map (fun lN => dabs (dmul (snd lN) (cov (fst lN) b))) (combine cols Nrow)) in
-  let s2i := match cols, Nm with a :: _, r :: _ => prod r a | _, _ => dzero end in
+  let s2i := ds2i rows cols cov in
   (0 <? fst dof) &&
-  forallb (fun ja =>
-    forallb (fun kb =>
-      let rhs := if Nat.eqb (fst (fst ja)) (fst kb) then s2i else dzero in
+  forallb (fun a =>
+    let Nrow := dNrow rows cols a in
+    forallb (fun b =>
+      let rhs := if param_eqb a b then s2i else dzero in
       (* the last term is an absolute floor relative to the scale s2 of the identity: entries that are exactly zero in exact
          arithmetic (e.g. between time steps that share no free unknown) come out of a float inverse as pure round-off *)
-      dle (dabs (dsub (prod (snd ja) (snd kb)) rhs)) (dadd (dmul (dpow2 e) (dadd (mag (snd ja) (snd kb)) (dabs rhs))) (dmul (dpow2 (-40)) (dabs s2i))))
-      (combine (seq 0 (length cols)) cols))
-    (combine (combine (seq 0 (length cols)) cols) Nm) &&
+      dle (dabs (dsub (dNC Nrow cov b) rhs)) (dadd (dmul (dpow2 e) (dadd (dNCabs Nrow cov b) (dabs rhs))) (dmul (dpow2 (-40)) (dabs s2i))))
+      cols)
+    cols &&
   dle (dabs (dsub (dmul dof s2i) ssr))
       (dadd (dmul (dpow2 e) (dadd (dabs (dmul dof s2i)) ssr)) (dmul (dpow2 efloor) (dY2 rows p))).
 
